@@ -141,7 +141,8 @@ func (m *ErrorMessage) UnmarshalBinary(data []byte) error {
 		return fmt.Errorf("failed to decode compact length")
 	}
 
-	if len(data) < bytesRead+int(length) {
+	// compare in uint64: int(length) is negative for lengths above 2^63 and would pass the check
+	if length > uint64(len(data)-bytesRead) {
 		return fmt.Errorf("data too short for error message")
 	}
 
@@ -155,6 +156,9 @@ func (m *Features) MarshalBinary() ([]byte, error) {
 }
 
 func (m *Features) UnmarshalBinary(data []byte) error {
+	if len(data) < sizeOfUint32 {
+		return fmt.Errorf("data too short for features")
+	}
 	*m = Features(unmarshalUint32LE(data))
 	return nil
 }
@@ -270,6 +274,9 @@ func (m *PeerInfo) UnmarshalBinary(data []byte) error {
 	// skip the already read compact length bytes
 	buffer.Next(bytesRead)
 
+	if nameLength > uint64(buffer.Len()) {
+		return fmt.Errorf("data too short for app name")
+	}
 	nameBuffer := make([]byte, nameLength)
 	_, err = io.ReadFull(buffer, nameBuffer)
 	if err != nil {
@@ -386,11 +393,22 @@ func (m *Message) ReadFrom(reader io.Reader) (int64, error) {
 	}
 	totalBytesRead += 1
 
-	payload := make([]byte, encodedMessageLength-1)
-	bytesRead, err := io.ReadFull(reader, payload)
-	totalBytesRead += int64(bytesRead)
+	// The announced length is untrusted (a peer can claim 4 GiB in four octets, and a zero length wraps around below):
+	// read the payload as it arrives instead of allocating the announced size up front.
+	if encodedMessageLength == 0 {
+		return totalBytesRead, fmt.Errorf("empty message frame")
+	}
+	payloadLength := int64(encodedMessageLength - 1)
+	payload, err := io.ReadAll(io.LimitReader(reader, payloadLength))
+	totalBytesRead += int64(len(payload))
 	if err != nil {
 		return totalBytesRead, err
+	}
+	if int64(len(payload)) != payloadLength {
+		if len(payload) == 0 {
+			return totalBytesRead, io.EOF
+		}
+		return totalBytesRead, io.ErrUnexpectedEOF
 	}
 
 	var unmarshaler encoding.BinaryUnmarshaler
